@@ -240,7 +240,7 @@ def crash_c16(work, dirs, cycles, max_stores, max_run_ms):
         lines += ls
         for k, v in st.items():
             stats[k] = max(stats.get(k, 0), v) if k.startswith("max_") else stats.get(k, 0) + v
-    # informational probe, not part of the verdict
+    # deterministic probe of the zero-length-log-file crash artefact (judged in chk_store.run_c16)
     rc, out = vlib.run_test_binary(binary, "^TestVerifStoreProbeEmptyWal$", work, timeout=300, extra_args=["-test.v"],
                                    env={"VERIF_C16_PROBE": "1", "TMPDIR": tmp})
     m = re.search(r"^VERIF-PROBE (\{.*\})$", out, re.M)
